@@ -104,15 +104,20 @@ def no_float(chk, F):
         chk.anchor_lost("no-float-fallback", "rink_core::runtime::eval::eval_expr", "expected >= 40 float sites in the function arms, found %d" % n)
 
 
-def zero_accept(owner_text):
-    """accepting edges of exact zero tests on `<owner>.value`."""
+def zero_accept(owner_text, F=None, fn=None):
+    """accepting edges of exact zero tests on `<owner>.value` (against Numeric::zero() or the literal Numeric::Float(0.0), which
+    is a promoted constant in MIR and is recognised through the HIR when F and fn are given)."""
     def acc(kind, ap, info):
         if kind != "bool":
             return None
         r = ap[0]
         if r[0] == "call" and r[1] in ("<types::numeric::Numeric as core::cmp::PartialEq>::eq", "<types::numeric::Numeric as core::cmp::PartialEq>::ne"):
             s = ap_str(ap)
-            if (owner_text + ".value") in s and ("Numeric::zero()" in s or "Numeric::Float{0" in s or "Float{" in s):
+            fzero = False
+            if F is not None and fn is not None and "promoted" in s and "types::numeric::Numeric" in s:
+                import k1
+                fzero = fn.blocks[r[3]]["term"]["loc"].get("line") in k1.float_zero_lines(F, fn)
+            if (owner_text + ".value") in s and ("Numeric::zero()" in s or "Numeric::Float{0" in s or "Float{" in s or fzero):
                 return {"false"} if r[1].endswith("::eq") else {"true"}
         return None
     return acc
@@ -121,17 +126,17 @@ def zero_accept(owner_text):
 def undefined(chk, F):
     # Div: covered in C03 too
     fn = F.find(CORE, op_impl("types::number::Number", "Div", "div", "types::number::Number"), exact=True)
-    k2.gate_rule(chk, fn, "undefined-is-error", "rink_core::Number::div", "divisor-nonzero", k2.call_blocks(fn, NUM + "invert"), zero_accept("arg2"),
+    k2.gate_rule(chk, fn, "undefined-is-error", "rink_core::Number::div", "divisor-nonzero", k2.call_blocks(fn, NUM + "invert"), zero_accept("arg2", F, fn),
                  "division happens only behind the exact test `other.value != 0`", "Number::div can divide by zero")
     fn = F.find(CORE, NUM + "rem")
-    k2.gate_rule(chk, fn, "undefined-is-error", "rink_core::Number::rem", "divisor-nonzero", k2.call_blocks(fn, "core::ops::arith::Rem<&'b types::numeric::Numeric>>::rem"), zero_accept("arg2"),
+    k2.gate_rule(chk, fn, "undefined-is-error", "rink_core::Number::rem", "divisor-nonzero", k2.call_blocks(fn, "core::ops::arith::Rem<&'b types::numeric::Numeric>>::rem"), zero_accept("arg2", F, fn),
                  "`mod` is computed only behind the exact test `rhs.value != 0`", "`x mod 0` reaches num-rational's remainder (panic) instead of an error")
     # zero to a negative power
     fn = F.find(CORE, NUM + "pow")
     powi = k2.call_blocks(fn, NUM + "powi")
 
     def acc(kind, ap, info):
-        z = zero_accept("arg1")(kind, ap, info)
+        z = zero_accept("arg1", F, fn)(kind, ap, info)
         if z:
             return z
         if kind == "bool":
